@@ -131,7 +131,7 @@ def norm_row(r):
 
 def run(ctx):
     ctx.check_theorems("ActsModel.Props.C10")
-    n = 150 if ctx.tier == "quick" else 4000
+    n = 300 if ctx.tier == "quick" else 4000
     scs, metas = [], []
     for i in range(n):
         coll, ops, meta = gen_scenario(ctx.seed, i)
